@@ -280,9 +280,10 @@ class _OsSystem:
         return self.boom_exc
 
 
-def os_run(case, how="iter", timeout=900):
+def os_run(case, how="iter", timeout=180):
     """One run of Context.get_iter / get_array under the OS scheduler.  -> observation dict.
-    strax's own `timeout` (seconds) is what ends a hang; it is far above anything the run needs."""
+    strax's own `timeout` (seconds) is what ends a hang (the caller then receives a Mailbox*Timeout, which the
+    predicate reports); the runs take milliseconds, the value is far above anything a loaded machine needs."""
     install_storage_hooks()
     tmpdir = tempfile.mkdtemp(prefix="c06os_", dir=os.environ.get("C06_TMP", None))
     sysm = _OsSystem()
